@@ -1,6 +1,7 @@
 package main
 
 import (
+	"runtime/debug"
 	"fmt"
 	"io"
 	"os"
@@ -229,7 +230,14 @@ func (e *Engine) runPath(st *State, fn *ssa.Function) (out pathEnd) {
 			case unsupported:
 				out = pathEnd{kind: "unsupported", msg: r.what}
 			default:
-				panic(fmt.Sprintf("engine panic in %s: %v (stack: %s)", fn.Name(), r, strings.Join(st.stack, " < ")))
+				stk := string(debug.Stack())
+				if i := strings.LastIndex(stk, "panic("); i >= 0 {
+					stk = stk[i:]
+				}
+				if len(stk) > 1500 {
+					stk = stk[:1500]
+				}
+				panic(fmt.Sprintf("engine panic in %s: %v\n%s", fn.Name(), r, stk))
 			}
 		}
 	}()
